@@ -603,8 +603,14 @@ class SegmentationImage:
             numbers.
         """
         # child_labels are the deblended labels
-        for parent_label, child_labels in self._deblend_label_map.items():
-            self._deblend_label_map[parent_label] = relabel_map[child_labels]
+        for parent_label, child_labels in list(
+                self._deblend_label_map.items()):
+            new_labels = relabel_map[child_labels]
+            new_labels = new_labels[new_labels != 0]  # removed labels
+            if len(new_labels) == 0:
+                del self._deblend_label_map[parent_label]
+            else:
+                self._deblend_label_map[parent_label] = new_labels
 
     def reassign_label(self, label, new_label, relabel=False):
         """
